@@ -81,7 +81,7 @@ def check(tier):
     for n in names:
         r = res[n.split('::')[-1]]
         rep.states += max(r.checks_total, 1)
-        rep.transitions += r.vccs
+        rep.transitions += max(r.vccs, r.checks_total)
         rep.queries += 1
         rep.solver_s += r.time_s
         rep.sample({'harness': n, 'status': r.status, 'checks': r.checks_total, 'covers': '%d/%d' % (r.covers_sat, r.covers_total), 'solver_s': r.time_s})
